@@ -7,6 +7,8 @@
 (*   {"e":"rec","frame","t","ts","df","icao","seen","m":[{"rx","id","t"}]}     *)
 (*   {"e":"table","stable","tab":[{"icao","count","first","last"}]}            *)
 (*   {"e":"end"}                                                                *)
+(* junk: lines on stdout that are not records; died: the program ended by      *)
+(* itself (a crash is an observation: clause x_died).                           *)
 (* At "end" every violated clause is printed as <<"REJECT", line of the         *)
 (* scenario event, clause>>.  SELFCHECK lines concern the driver (inputs not    *)
 (* admissible, wire bytes not the Beast encoding of the frames): tool errors.   *)
@@ -39,7 +41,11 @@ DriverOk(a, b, In) ==
   /\ InputOk(In)
   /\ LET Wr == Lines(a, b, "wire") IN
      /\ Len(Wr) = Rec[a].nrx
-     /\ \A x \in DOMAIN Wr : LET ev == Rec[Wr[x]] IN ev.rx \in DOMAIN In /\ WireOk(In, ev.rx, ev.bytes)
+     /\ \A x \in DOMAIN Wr : LET ev == Rec[Wr[x]] IN
+          /\ ev.rx \in DOMAIN In
+          /\ IF Rec[a].died       \* writes fail once the program is gone: a prefix was written
+             THEN BST!IsPrefixOf(ev.bytes, BST!Stream([p \in DOMAIN In[ev.rx] |-> In[ev.rx][p].fr]))
+             ELSE WireOk(In, ev.rx, ev.bytes)
 
 (* information: Dedup.tla's own declarative property, history = observed       *)
 (* receptions ordered by (stamp, record, position in the record)                *)
@@ -69,6 +75,7 @@ AtEnd(a, b) ==
      ELSE LET V == Violations(In, sc.w, Skew, CfgOf(sc), recs, tabEv.tab, tabEv.stable)
                    \cup (IF Cardinality(SetOf(sc.serials)) # Len(sc.serials) THEN {"a_serial"} ELSE {})
                    \cup (IF sc.junk # 0 THEN {"c_junk"} ELSE {})
+                   \cup (IF sc.died THEN {"x_died"} ELSE {})
           IN /\ \A c \in V : PrintT(<<"REJECT", a, c>>)
              /\ IF V = {} THEN PrintT(<<"STRICT", a, Strict(In, sc.w, recs)>>) ELSE TRUE
 
